@@ -34,6 +34,9 @@ bool is_finished(int id);
 void drain(int id); // non-throwing; enters abort mode and runs task `id` (or all, id < 0) to its end
 void yield_point(const char* op, uint64_t arg = 0); // scheduling point before a shared-memory operation
 void sleep_us(uint64_t us);
+// block until wake_all(addr) (or until timeout_us of simulated time have passed; UINT64_MAX = no limit)
+void wait_on(const void* addr, uint64_t timeout_us);
+void wake_all(const void* addr);
 uint64_t now_us();
 int current();
 int task_count();
